@@ -67,7 +67,8 @@ def _case(draw):
         table, kinds=("assign", "assign", "assign", "se", "se", "se", "when", "b", "every", "first"),
         or_mode=False))
     strip_lt(prog)
-    return {"table": table, "scan": scan, "prog": prog}
+    return {"table": table, "scan": scan, "prog": prog,
+            "no_matches": draw(st.sampled_from([False, False, False, True]))}
 
 
 def strategy(tier):
@@ -106,6 +107,9 @@ def run_case(case, sb):
     full = {"comps": TAPS + [tap_print] + prog["comps"], "mode": "AND"}
     rel = sb.write_csv("f.csv", records)
     text = common.text_of(full, rel, case["scan"])
+    if case.get("no_matches"):
+        # the return mode only changes which lines are handed back, not what matched or was counted
+        text = common.text_of(full, rel, case["scan"], comment="~ return-mode: no-matches ~ ")
     fns = sorted(progs.functions_used(prog))
     labels = ["fn:" + f for f in fns]
     # model: counters exist from the start
